@@ -57,6 +57,54 @@ type PayCase struct {
 	Type string `json:"type"` // dlg | inv
 	Muts []Mut  `json:"muts"`
 	Env  string `json:"env,omitempty"` // envelope-level mutation
+	Ctx  int    `json:"ctx,omitempty"` // index into contexts: the (valid) command and extra (valid) arguments around the mutation
+}
+
+// contexts: commands with a meaning of their own in the UCAN specifications or in common use, each with the
+// arguments such a command carries. A validation rule is a rule for EVERY command; one that is switched per
+// command (a dedicated shape check standing in for the general one) is wrong for that command only.
+type payCtx struct {
+	Cmd   string
+	Extra []val.KV
+}
+
+var contexts = []payCtx{
+	{},
+	{Cmd: "/ucan/revoke", Extra: []val.KV{{K: "ucan", V: val.V{K: "link", X: []byte{3}}}}},
+	{Cmd: "/ucan/revoke"},
+	{Cmd: "/ucan", Extra: []val.KV{{K: "ucan", V: val.V{K: "link", X: []byte{3}}}}},
+	{Cmd: "/ucan/attest", Extra: []val.KV{{K: "ucan", V: val.V{K: "link", X: []byte{4}}}, {K: "proof", V: val.V{K: "link", X: []byte{5}}}}},
+	{Cmd: "/ucan/assert/claim", Extra: []val.KV{{K: "claim", V: val.Map(val.E("n", val.Int(1)))}}},
+	{Cmd: "/", Extra: []val.KV{{K: "ucan", V: val.V{K: "link", X: []byte{3}}}}},
+	{Cmd: "/crud/read", Extra: []val.KV{{K: "uri", V: val.Str("https://example.com/x")}}},
+	{Cmd: "/msg/send", Extra: []val.KV{{K: "to", V: val.List(val.Str("mailto:bob@example.com"))}}},
+	{Cmd: "/wasm/run", Extra: []val.KV{{K: "mod", V: val.Bytes([]byte{0, 0x61, 0x73, 0x6d})}, {K: "fun", V: val.Str("add")}, {K: "params", V: val.List(val.Int(1), val.Int(2))}}},
+	{Cmd: "/http/get", Extra: []val.KV{{K: "headers", V: val.Map(val.E("content-type", val.Str("application/json")))}}},
+}
+
+// inContext puts the mutated payload into context k: the command replaced (unless a mutation owns it) and the
+// extra arguments added to an args map (unless they are there already). Both are valid, so the verdict stands.
+func inContext(typ string, p val.V, k int, touched map[string]bool) val.V {
+	cx := contexts[k%len(contexts)]
+	if cx.Cmd == "" {
+		return p
+	}
+	out := val.V{K: "map", M: append([]val.KV{}, p.M...)}
+	for i := range out.M {
+		if out.M[i].K == "cmd" && !touched["cmd"] {
+			out.M[i].V = val.Str(cx.Cmd)
+		}
+		if out.M[i].K == "args" && typ == "inv" && out.M[i].V.K == "map" {
+			a := val.V{K: "map", M: append([]val.KV{}, out.M[i].V.M...)}
+			for _, e := range cx.Extra {
+				if _, dup := a.Get(e.K); !dup {
+					a.M = append(a.M, e)
+				}
+			}
+			out.M[i].V = a
+		}
+	}
+	return out
 }
 
 func issuer() *keys.Key { return keys.Principal(0) }
@@ -612,6 +660,10 @@ func runPay(c *h.Ctx, pc PayCase) {
 			verdict = "unspecified"
 		}
 	}
+	payload = inContext(pc.Type, payload, pc.Ctx, touched)
+	if pc.Ctx%len(contexts) != 0 {
+		c.P.Class("context:" + contexts[pc.Ctx%len(contexts)].Cmd)
+	}
 	node, ev, err := buildEnvelope(pc.Type, payload, pc.Env)
 	if err != nil {
 		c.P.Class("harness-cannot-build")
@@ -648,7 +700,7 @@ func runPay(c *h.Ctx, pc PayCase) {
 		}
 		wrongType := d.typ != "" && d.typ != pc.Type
 		if derr != nil || got == nil {
-			if verdict == "accept-ok" && !wrongType && pc.Env == "" && len(desc) == 0 {
+			if verdict == "accept-ok" && !wrongType && pc.Env == "" && len(desc) == 0 && pc.Ctx%len(contexts) == 0 {
 				c.Fail("C10/harness/base-payload-rejected", "%s rejects the unmodified, correctly signed base payload: %v", d.name, derr)
 			}
 			continue
@@ -691,6 +743,9 @@ var payProp = h.Define(P, "payload", func(t *rapid.T) PayCase {
 	if rapid.IntRange(0, 4).Draw(t, "envmut") == 0 {
 		pc.Env = rapid.SampledFrom(envMuts).Draw(t, "env")
 	}
+	if rapid.Bool().Draw(t, "inctx") {
+		pc.Ctx = rapid.IntRange(1, len(contexts)-1).Draw(t, "ctx")
+	}
 	return pc
 }, runPay)
 
@@ -708,6 +763,12 @@ func TestPayloadProduct(t *testing.T) {
 				}
 				for n := 0; n < nmax; n++ {
 					payProp.One(t, PayCase{Type: typ, Muts: []Mut{{Field: f, Kind: k, N: n}}})
+				}
+				// and in every context, with a few parameters each
+				for cx := 1; cx < len(contexts) && (k == "bigint" || k == "nested-bigint" || h.Thorough()); cx++ {
+					for n := 0; n < nmax; n += 1 + nmax/24 {
+						payProp.One(t, PayCase{Type: typ, Muts: []Mut{{Field: f, Kind: k, N: n + cx%3}}, Ctx: cx})
+					}
 				}
 			}
 		}
